@@ -47,8 +47,6 @@ def _toks(e, full):
         return ["("] + toks(e[1], 0, full) + [")"]
     if k in ("bin", "log"):
         p = PREC[e[1]]
-        if e[1] == "AND":   # the parser right-nests AND chains; print the left operand one level up
-            return toks(e[2], p + 1, full) + [e[1]] + toks(e[3], p, full)
         return toks(e[2], p, full) + [e[1]] + toks(e[3], p + 1, full)
     if k == "un":
         return [e[1]] + toks(e[2], 7, full)
